@@ -1,6 +1,7 @@
 mod asm;
 mod framework;
 mod gen;
+mod http;
 mod inst;
 mod obs;
 mod ops;
